@@ -38,6 +38,10 @@ CHECKS = {
          "For each seeded journal history the index file is replaced by every variant of a catalogue (missing, empty, valid, every truncation point, every byte flipped, random bytes, stale index of each earlier clean close, index of another journal, checksum-valid-but-wrong ranges, EIO on read); the store is opened read-write and read-only and must show the same root and the same readable chunks (byte for byte) as with no index; the read-only open must issue no mutating file operation (observed at the simulated OS).",
          "Forged indexes (checksums recomputed over altered contents) are probes only. Two known findings (lookup offset/length not covered by the batch CRC) are listed in known_findings.txt.",
          "deterministic simulation: at-rest fault enumeration of the index file against the no-index reference, OS-level write observation", "DESIGN.md §6.1 C04", "dsim-store"),
+ "C05": ("exploration",
+         "Seeded search over interleavings of writer, conjoiner, GC and grace-period-pruner processes (own store objects, one file-manifest directory, real flock, simulated clock and mtimes) at file-operation granularity: after every namespace-changing file-system event the on-disk manifest must be a complete version naming only existing files. Plus, per recorded execution, crash images at every op-log position touching manifest, temp manifests, table files or directory fsyncs under four persistence variants: the persisted manifest must be byte-identical to a completely written version and every file it names must be present and read back completely.",
+         "Sampling of schedules; crash-image positions are enumerated per execution up to a per-run cap (evenly sampled above it). The non-grace PruneTableFiles is single-process by design and is not raced against foreign writers (DESIGN §11). Persistence model as stated in the evidence.",
+         "deterministic simulation: seeded S1 scheduler at file-operation granularity + live invariant after every OS event + crash-image enumeration", "DESIGN.md §6.1 C05", "dsim-store"),
  "C06": ("exploration",
          "Claimed for the I/O surface. Seeded histories drive the real table-file and archive writers (memtable persist, conjoin, GC copier, archive stream writer) on a simulated disk; half of the runs inject ENOSPC, EIO, short writes, fsync, rename and create errors into table/archive file operations. After every operation each file under a final table or archive name is opened on its own and must read back completely and report the right count; an independent instance must read every committed chunk byte for byte and report adjacent absent addresses absent. In the fault-free configuration any error is a violation; with faults an operation may fail but may never leave a short or damaged file under a final name or lose committed chunks.",
          "The chunk multiset itself is input-quantified and rides along as workload (incl. duplicates, empty, compressible/incompressible, genuine 8-byte-prefix collisions). Dictionary-grouped archives cannot be produced by this tree's GC and are not exercised. Manifest faults are C05's subject.",
